@@ -56,6 +56,18 @@ void Kernel::preempt_point(Thread *t) {
   if (!w.preempt_num || t->child) return;
   if (ch.choose(w.preempt_den) < w.preempt_num) {
     if (hooks) hooks->on_preempt(t);
+    if (w.stall_num && ch.choose(1000) < w.stall_num) {
+      // a stalled thread (descheduled, paged out, stopped in a debugger): time passes for everybody else.  Not a park of the
+      // library's making, so it is not accounted as time the call spent blocked.
+      static const int64_t dur_ms[] = { 1, 50, 1100, 2500 };
+      n_stalls++;
+      t->st = Thread::PARKED;
+      t->ready = nullptr;
+      t->park_deadline_ns = now_ns + dur_ms[ch.choose(4)] * 1000000;
+      coro_yield();
+      t->park_deadline_ns = -1;
+      return;
+    }
     t->st = Thread::READY;
     coro_yield();
   }
